@@ -45,9 +45,17 @@ MODELLED = ["wave 7, Model/MlmcVec.v gloop_f: an exception raised by simulation_
             "every row exact), ~35 control-variate runs (raw and control rows exact, adjusted rows 1e-6, price and statistics 1e-5; kurtosis of "
             "the adjusted rows by the Fraction oracle only)",
             "multi-process branch of compute_level_l (map_async callback: statistics.add(current + it, ...)): modelled as the same engine whose "
-            "n-th stored row of a level is the row of draw sigma(level, n) for an ARBITRARY assignment sigma; tied by 3 small REAL 2-worker pool "
-            "runs whose observed sigma (read off the uniquely tagged rows) is replayed row by row under vm_compute, plus the 3-4 large runs "
-            "(up to 12 500 paths in one pass) checked as multisets by the implementation oracle",
+            "n-th stored row of a level is the row of draw sigma(level, n) for an ARBITRARY assignment sigma; tied (wave 8) by 3 (thorough 6) small REAL "
+            "pool runs with 3-4 workers of unequal speed, every pass longer than the pool's chunk size: sigma is read from an INDEPENDENT tag channel "
+            "of the pickled path (jump component at two intermediate times = draw index and worker pid, logged by the payoff underlying when the "
+            "callback evaluates it in the parent; the payoff reads the last time only), never from the stored rows, and is replayed row by row under "
+            "vm_compute; the check breaks when every replayed sigma is the identity (quick run: 7 of 7 levels non-trivial, 11-30 displaced indices); "
+            "plus the 3-4 large 2-worker runs (up to 12 500 paths in one pass) checked as multisets by the implementation oracle. Until wave 7 sigma "
+            "was obtained by inverting the sample function on the stored fine row (the component then compared) and was the identity in every run",
+            "REAL fixed-date coupling process through the pool (wave 8): one fixed-level run of CouplingMarkovChain/HEM, 64 paths, 2 workers (and its "
+            "1-process control): N_l, row counts, coarse = 0 at level 0, price() = sum of means of the stored rows are checked; the stored rows are NOT "
+            "64 distinct samples (13-27 distinct per level) -- recorded as explained by F-C08-3 (known finding of C08: every chunk pops the parent's "
+            "pre-drawn rows again), not a C05 violation: the hypothesis 'sigma permutes' of C05_mp_rows_permutation is false for such a process",
             "Engine.price / compute_level_l (single process) / price_with_constant_mc_paths_and_level, MLMCStatistics, "
             "MLMCResults, Statistic.add/extend, MLMCPath.process(_l0)/discount (payoff component 0), the per-engine list of path "
             "managers across pricings: hand model Model/Mlmc.v + Model/McStats.v, tied by vm_compute correspondence on every history",
@@ -56,8 +64,8 @@ MODELLED = ["wave 7, Model/MlmcVec.v gloop_f: an exception raised by simulation_
             "(arbitrary oracles in the model) and is exercised in 15% of the histories",
             "control variates: np.linalg.lstsq on the correlation scale is modelled by the closed-form solution for 1 and 2 controls (C07's "
             "b_star1/b_star2); 3+ controls, singular or ill-conditioned Sigma_X (|det| < 1e-3 of the diagonal product) are not replayed (counted; the "
-            "check breaks when fewer than half of the runs are replayed); vector payoffs WITH controls (per-component prices, product.py:296) are in "
-            "the model and the theorems but are not driven by the correspondence (controls of the harness are scalar)",
+            "check breaks when fewer than half of the runs are replayed); vector payoffs WITH controls (per-component prices, product.py:296) are "
+            "driven since wave 7 (first item)",
             "the pool's chunking of range(extra_mc_paths) and the completion order inside map_async: map_async hands the callback ONE list ordered "
             "by iteration index (so they only show in sigma); the callback itself is Model/MlmcVec.v merge, proved (wave 7) to equal the single-process "
             "loop for ANY order / chunking of the (iteration, row) pairs covering each index once",
@@ -67,7 +75,10 @@ MODELLED = ["wave 7, Model/MlmcVec.v gloop_f: an exception raised by simulation_
 ASSUMPTIONS = ["compute_mc_paths answers an integer array with one entry per level (numpy raises otherwise; the model reads a missing entry as 0)",
                "sample counts stay below 2^40 so that the float test dNl > 0.01*Nl equals 100*dNl > Nl",
                "multi-process theorem: the permutation clause assumes every draw of a level is handed to exactly one iteration index (sigma l permutes "
-               "0..N_l-1); the replayed pool runs and the multiset oracle check that on the real pool",
+               "0..N_l-1). This is discharged ONLY on the harness' scripted process, whose draw index comes from a shared-memory counter (it cannot "
+               "fail there except through the pool / callback code); for a REAL fixed-date process it is FALSE (F-C08-3, known finding of C08: the "
+               "chunks of map_async share the parent's pre-drawn Brownian / Poisson rows; 64 paths on 2 workers store 13-27 distinct rows) -- the check "
+               "runs that case and records it as explained by F-C08-3; real jump-time processes are not driven through the pool by C05 (C08 does)",
                "next_level appends the path manager of each new level in increasing level order (tied by the sequence correspondence)"]
 THEOREM_NOTES = {
     "C05_rows_are_samples": "invariant of the loop, all oracles; the model follows the repaired tree (d6e63ca: Nl appended as 0)",
@@ -84,13 +95,27 @@ THEOREM_NOTES = {
                       "which is all price() and mlmc_results read",
     "C05_vec_rows_are_samples": "generic engine (any stored row type): invariant proved once (Proofs/C05_Vec.v gloop_rows_are_samples), here instantiated "
                                 "with rows = (all payoff components, all control rows); with_cv = derive of exactly the simulated rows",
-    "C05_cv_rows_textbook": "for every regression rule bst; entries are Model/McStats.v cv_adj (C07) and the means are C07's cv_mean_full over exactly the "
+    "C05_cv_rows_textbook": "(audit 5a: clause 1, entries = cv_adj, is definitional -- adj_c and cv_adj are the same expression; clause 2, means = textbook "
+                            "estimator over exactly the N_l rows, is the content; gcv = derive rows holds by construction of grun_level) for every regression rule bst; entries are Model/McStats.v cv_adj (C07) and the means are C07's cv_mean_full over exactly the "
                             "N_l simulated rows; that the level-0 coarse side stays 0 needs b = 0 there (true for the code's degenerate test, checked by the replay, not a theorem)",
-    "C05_vec_component_is_scalar_run": "simulation: projecting the vector engine on component j gives literally Mlmc.price_run on payoff pay_j, so the six "
-                                       "component-0 theorems hold for every j < d (C05_vec_component_price is the instance for the estimator)",
-    "C05_mp_rows_permutation": "for ALL assignments sigma; rows in iteration order are the rows of draws sigma l 0..N-1 (no hypothesis); the permutation "
-                               "conclusion has the hypothesis that sigma l permutes 0..N_l-1 (non-vacuous: Example C05_mp_nonvacuous); the callback writing an "
-                               "arbitrarily chunked / ordered list of (it, path) pairs is C05_callback_merge / _chunks / _is_single_process_loop",
+    "C05_vec_component_is_scalar_run": "SIMULATION = parametricity of the engine in the row type (it never inspects a row; holds for ANY projection pr with "
+                                       "pr(rowof l n) = mk_row (smp l n), pr zero = zero, including the one that forgets the row) + the concrete fact pr_j j "
+                                       "(srow_of l n) = mk_row (pay_j sample) for j < d. Both sides get the SAME alloc / conv answers, which the code computes "
+                                       "from component 0 (F-C05-5): component j of the stored rows is what the scalar model stores under those answers; it is "
+                                       "NOT a pricing of pay_j (other N_l, no rmse guarantee for j >= 1) and reads the RAW rows (with controls price() reads the "
+                                       "with_cv rows). Use: transports the row / count / cost / statistics theorems to every component",
+    "C05_vec_component_price": "transported corollary (C05_price_is_sum_of_means through the simulation); raw rows only",
+    "C05_vec_reported_results_no_controls": "wave 8: ties the definitions the correspondence EVALUATES (lev_of, proj_lev, gprice) to the theorems: clause 1 "
+                                            "(lev_of 0 j = proj_lev j) and clause 3 (gprice = mlmc_price of lev_of .. 0, any nc in the lemma) are bookkeeping "
+                                            "(map fusion); clause 2 is C05_results_from_same_rows transported through the simulation to component j. With "
+                                            "controls (nc > 0) the reported records are those of the with_cv rows: only C05_cv_rows_textbook speaks about them; "
+                                            "vl / var / kurtosis of the adjusted rows have no theorem (replayed at 1e-5, kurtosis by the Fraction oracle)",
+    "C05_mp_rows_permutation": "REPACKAGING + CONDITIONAL (audit 5a B8): the unconditional part is the single-process invariant on the sampler renamed through "
+                               "sigma (mp_rowof is that renaming by definition; sigma = const 0 is an instance); the permutation conclusion has the hypothesis "
+                               "that sigma l permutes 0..N_l-1 (non-vacuous: Example C05_mp_nonvacuous), discharged only on the scripted shared-counter process "
+                               "and FALSE for real fixed-date processes (F-C08-3, see ASSUMPTIONS). That the callback writing an arbitrarily chunked / ordered "
+                               "list of (it, path) pairs IS that engine is C05_callback_merge / _chunks / _is_single_process_loop (wave 7; merge and lookup "
+                               "are used there)",
     "C05_abort_exposed_state": "generic engine, ALL fault points (fp, fl, fi) and oracles: AReturn o -> o is the uninterrupted run (fault point never reached: "
                                "pass fp does not exist, or dNl[fl] <= fi there); ARaised e -> levels < fl glev_done, level fl holds N_l + fi simulated rows then "
                                "dNl - fi placeholders with N_l not incremented, levels > fl glev_head (placeholders), and on every level the first N_l rows are "
@@ -99,10 +124,11 @@ THEOREM_NOTES = {
                                "variant and the multi-process branch are not",
     "C05_callback_merge": "hypothesis: the iteration indices of res are a permutation of 0..k-1 (what map_async guarantees); lookup takes the first pair with the "
                           "index; merge_nth (Proofs/C05_Fault.v) gives the pointwise statement under NoDup only",
-    "C05_results_permutation_invariant": "price contribution, ml, vl, mean, var, kurtosis, cl of a level are invariant under any permutation of its rows",
+    "C05_results_permutation_invariant": "price contribution, ml, vl, mean, var, kurtosis, cl of a level are invariant under any permutation of its rows -- over Q; "
+                                         "in floats np.mean / scipy moments depend on the row order (the large pool runs compare price() at 1e-9)",
     "mc_stddev": "MLMCStatistics.mc_stddev is sum_l sigma_l/sqrt(N_l) in the code (not sqrt(sum sigma_l^2/N_l)); outside the property text, the oracle follows the code",
 }
-LEVEL_TEXT = ("Proof: 17 Coq theorems (closed under the global context). Six about an executable state-machine model of the multilevel "
+LEVEL_TEXT = ("Proof: 18 Coq theorems (closed under the global context). Six about an executable state-machine model of the multilevel "
               "engine, for all sample/cost/allocation/convergence oracles, all initial levels, sample sizes, maximum levels and "
               "fuels: at every return each level holds exactly its N_l simulated samples in order (no placeholder, none dropped, "
               "duplicated or overwritten; N_l = number of simulated paths), price() is the sum of the per-level means of fine-coarse "
@@ -112,11 +138,17 @@ LEVEL_TEXT = ("Proof: 17 Coq theorems (closed under the global context). Six abo
               "sequences of the real Engine.price under vm_compute (rows exact, statistics to 1e-9). Seven (wave 5) about a generic engine "
               "storing all payoff components and all control rows: the same invariant for every component and control; the with_cv rows are "
               "Y - b (X - price) of exactly the simulated rows for every regression rule and their means are the textbook control-variate "
-              "estimators; every payoff component is literally a run of the scalar model (simulation theorem), so the six theorems hold per "
-              "component; the fixed-level variant; for the multi-process branch the rows are those of the draws the pool assigned (any "
-              "assignment) and a permutation of the simulated samples when each draw is assigned once, and every reported statistic is "
-              "permutation-invariant. Tied by ~70 vector, 80 fixed, ~35 control-variate replays and 3 real 2-worker runs. Partial: price() "
-              "reads component 0 only (F-C05-5); 3+ controls not driven. Wave 7: an exception raised by a simulation at ANY (pass, level, iteration) "
+              "estimators; simulation theorem (parametricity in the row type): under the SAME allocation / convergence answers -- which the code "
+              "computes from component 0 -- component j of the stored raw rows is what the scalar model stores for payoff pay_j, so the row / count / "
+              "cost / statistics theorems transport to every component (not a pricing of pay_j); the fixed-level variant; for the multi-process "
+              "branch the rows are those of the draws the pool assigned (any assignment; a repackaging of the invariant) and, CONDITIONALLY on each "
+              "draw being assigned once, a permutation of the simulated samples -- a hypothesis discharged only on the scripted shared-counter "
+              "process and false for real fixed-date processes (F-C08-3: 64 paths, 2 workers, 13-27 distinct rows; run and recorded, not a C05 "
+              "violation); every reported statistic is permutation-invariant over Q. Tied by ~70 vector, 80 fixed, ~35 control-variate replays and 3 "
+              "real pool runs with 3-4 workers whose sigma (read from an independent tag channel of the path, non-identity enforced) is replayed "
+              "row by row. Wave 8: without controls the records price() / mlmc_results read are the projections of the stored rows and satisfy the "
+              "textbook clauses per component. Partial: price() reads component 0 only (F-C05-5); 3+ controls not driven; with controls only the "
+              "means of the adjusted rows have a theorem. Wave 7: an exception raised by a simulation at ANY (pass, level, iteration) "
               "either is never reached (the run is the uninterrupted one) or leaves Engine.price with nothing returned, the exposed state being exactly the "
               "half-finished pass (first N_l rows = the N_l samples on every level, placeholders behind on the interrupted and later levels) -- tied by ~180 "
               "fault-injection runs of the real engine (KeyboardInterrupt and ordinary exceptions; a returning engine must satisfy C05); the pool callback "
@@ -446,26 +478,119 @@ def _multiprocess(res, rng):
         res.bump("multiprocess_max_paths_in_one_pass", max(max(r) for r in spec["atab"]))
         for what, payload in _mp_run(spec):
             res.violation(what, payload)
-    # small REAL 2-worker runs replayed by the Coq model of the merge (Model/MlmcVec.v mp_run_tab): the assignment sigma of draws to
-    # iteration indices is read off the stored rows (unique tags); the model must reproduce every row in iteration order
-    small = [{"L0": 1, "Lmax": 2, "N0": 12, "atab": [[30, 14], [30, 20], [31, 20, 9], [31, 20, 9]], "vtab": [False, True]},
-             {"L0": 0, "Lmax": 1, "N0": 25, "atab": [[40], [40, 17], [40, 17]], "vtab": [False, True]},
-             {"L0": 2, "Lmax": 2, "N0": 16, "atab": [[16, 33, 20], [16, 33, 21]], "vtab": [True]}]
+    # small REAL pool runs (3-4 workers, every pass longer than the pool's chunk size) replayed by the Coq model of the merge
+    # (Model/MlmcVec.v mp_run_tab).  Wave 8: the assignment sigma of draws to iteration indices is read from an INDEPENDENT tag
+    # channel of the pickled path (c05_vec.TaggedCoupling / TagSpot: logged by the callback in the parent, not read from the
+    # statistics arrays); the model must then reproduce every stored row in iteration order.  The run is worthless as a tie of the
+    # merge if the pool happened to work in iteration order: at least one replayed sigma must differ from the identity.
+    small = [{"L0": 1, "Lmax": 2, "N0": 12, "atab": [[30, 14], [30, 20], [31, 20, 9], [31, 20, 9]], "vtab": [False, True], "nb_of_processes": 3},
+             {"L0": 0, "Lmax": 1, "N0": 25, "atab": [[40], [40, 17], [40, 17]], "vtab": [False, True], "nb_of_processes": 4},
+             {"L0": 2, "Lmax": 2, "N0": 16, "atab": [[16, 33, 20], [16, 33, 21]], "vtab": [True], "nb_of_processes": 3}]
     mpcases = []
-    for k, run in enumerate(small if res.tier == "quick" else small + [dict(r, N0=r["N0"] + 7) for r in small]):
+    n_nonid = 0
+    for k, run in enumerate(small if res.tier == "quick" else small + [dict(r, N0=r["N0"] + 7, nb_of_processes=7 - r["nb_of_processes"]) for r in small]):
         spec = dict(run, kind="multiprocess", salt=rng.randrange(17), ctab=[1.0] * 8, df=rng.choice([1.0, 0.5]), notional=rng.choice([1.0, 2.0]),
-                    dim=1, big=True, epoch=0, nb_of_processes=2)
+                    dim=1, big=True, epoch=0)
         ob = V.mp_observe(spec)
-        res.count(("mp-model", k, json.dumps(spec, sort_keys=True)), nontrivial=True, kind="multi-process (2 workers), replayed by the Coq model")
-        perm = all(sorted(sg) == list(range(n)) for sg, n in zip(ob["sigma"], ob["drawn"])) and ob["Nl"] == ob["drawn"][:len(ob["Nl"])]
-        res.bump("multiprocess_sigma", "identity" if all(sg == list(range(len(sg))) for sg in ob["sigma"]) else "a non-trivial permutation")
+        res.count(("mp-model", k, json.dumps(spec, sort_keys=True)), nontrivial=True,
+                  kind=f"multi-process ({spec['nb_of_processes']} workers), sigma from the tag channel, replayed by the Coq model")
+        payload = dict(spec, Nl=ob["Nl"], paths_simulated=ob["drawn"], sigma=ob["sigma"])
+        if ob["parent_pid"] in [p for ps in ob["pids"] for p in ps]:
+            res.broke("correspondence driver", "a path of a multi-process run was simulated in the parent process: the pool branch was not taken")
+        res.bump("multiprocess_worker_processes_seen_per_run", len({p for ps in ob["pids"] for p in ps}))
+        # implementation oracle, clause by clause (tags and stored rows are independent observations)
+        perm = all(sorted(sg) == list(range(n)) for sg, n in zip(ob["sigma"], ob["drawn"])) and ob["tags_logged"] == sum(ob["drawn"])
+        counts = ob["Nl"] == ob["drawn"][:len(ob["Nl"])] and all(len(r) == n for r, n in zip(ob["rows"], ob["Nl"]))
         if not perm:
-            res.violation("multi-process run: the stored rows are not the simulated samples, each exactly once",
-                          dict(spec, Nl=ob["Nl"], paths_simulated=ob["drawn"]))
+            res.violation("multi-process run: the paths handed to the callback are not the simulated paths, each exactly once (tag channel)", payload)
+        if not counts:
+            res.violation("multi-process run: reported N_l / stored rows differ from the number of paths simulated at the level", payload)
+        if not (perm and counts):
             continue
+        wrong = [(l, i) for l, sg in enumerate(ob["sigma"]) for i, n in enumerate(sg)
+                 if (Fraction(float(ob["rows"][l][i][0])), Fraction(float(ob["rows"][l][i][1]))) != D.expected_row(spec, l, n)]
+        if wrong:
+            l, i = wrong[0]
+            stored = [sorted((Fraction(float(a)), Fraction(float(b))) for a, b in r) for r in ob["rows"]]
+            simulated = [sorted(D.expected_row(spec, l2, n) for n in range(ob["drawn"][l2])) for l2 in range(len(ob["Nl"]))]
+            if stored == simulated:      # every sample stored exactly once, but not under the index the callback was handed: C05 holds, the model is off
+                res.broke("correspondence mp", f"the row stored under iteration index {i} of level {l} is not the one the callback received with that index "
+                          f"({len(wrong)} rows; the stored rows are still the simulated samples, each once): Model/MlmcVec.v merge no longer follows the callback")
+            else:
+                res.violation("multi-process run: the stored rows are not the simulated samples, each exactly once (the row under an iteration index is not "
+                              "the sample handed to the callback with that index: dropped, duplicated or overwritten)",
+                              dict(payload, level=l, iteration=i, rows_wrong=len(wrong)))
+        for l, sg in enumerate(ob["sigma"]):
+            if sg:
+                ident = sg == list(range(len(sg)))
+                n_nonid += 0 if ident else 1
+                res.bump("multiprocess_sigma (per level of a replayed run)", "identity" if ident else "a non-trivial permutation")
+                res.bump("multiprocess_sigma_displaced_indices", min(sum(1 for i, n in enumerate(sg) if i != n), 99))
         mpcases.append(V.mp_case(spec, ob))
+    if mpcases and n_nonid == 0:
+        res.broke("multi-process coverage", "every replayed pool run stored its draws in iteration order (sigma = identity on every level): the merge "
+                                            "model was only exercised where it coincides with the single-process loop")
     if mpcases:
-        _coq_group(res, "mp", V.MP_TY, V.MP_CHK, mpcases, 2, "multi-process merge model (Model/MlmcVec.v) and implementation differ on {n} real 2-worker runs")
+        _coq_group(res, "mp", V.MP_TY, V.MP_CHK, mpcases, 2, "multi-process merge model (Model/MlmcVec.v) and implementation differ on {n} real pool runs")
+    _mp_real_fixed_date(res)
+
+
+def _mp_real_fixed_date(res):
+    """A REAL fixed-date coupling process (CouplingMarkovChain on HEM, Spot at maturity) through the pool branch, 2 workers.
+    Here the hypothesis of the permutation clause of C05_mp_rows_permutation ('every draw of the level is handed to exactly one
+    iteration': sigma l permutes 0..N_l-1) is FALSE: the Brownian / Poisson rows are pre-drawn by the parent and every map_async
+    chunk unpickles its own copy of the deques and pops rows 0, 1, .. again (finding F-C08-3 of property C08, status known).  The
+    stored rows are then NOT N_l distinct samples.  That is recorded here as an observation explained by F-C08-3; it is not a C05
+    violation (every stored row is a path some worker simulated, N_l counts them, price() is their mean) -- what C05 still
+    demands on this run is checked: N_l = configured paths = stored rows on every level, coarse = 0 at level 0, price() = sum of
+    the per-level means of the stored rows."""
+    import warnings
+    import numpy as np
+    from rpylib.model.utils import create_exponential_of_levy_model, ModelType
+    from rpylib.grid.spatial import CTMCUniformGrid
+    from rpylib.distribution.sampling import SamplingMethod
+    from rpylib.montecarlo.configuration import ConfigurationMultiLevel, ConvergenceRates
+    from rpylib.montecarlo.multilevel.engine import Engine
+    from rpylib.process.coupling.couplingmarkovchain import CouplingMarkovChain
+    from rpylib.product.product import Product
+    from rpylib.product.payoff import Vanilla, PayoffType
+    from rpylib.product.underlying import Spot
+    N = 64
+    out = {}
+    for nproc in (1, 2):
+        model = create_exponential_of_levy_model(ModelType.HEM)()
+        cp = CouplingMarkovChain(model=model, method=SamplingMethod.BINARYSEARCHTREEADAPTED1D, grid=CTMCUniformGrid(h=0.05, model=model))
+        conf = ConfigurationMultiLevel(convergence_rates=ConvergenceRates(1.0, 2.0, 1.0), convergence_criteria=None, initial_level=1,
+                                       maximum_level=1, initial_mc_paths=N, nb_of_processes=nproc, seed=5)
+        product = Product(payoff_underlying=Spot(), payoff=Vanilla(strike=80.0, payoff_type=PayoffType.CALL), maturity=0.25)
+        with warnings.catch_warnings(), np.errstate(all="ignore"):
+            warnings.simplefilter("ignore")
+            st = Engine(conf, cp).price_with_constant_mc_paths_and_level(product)
+            Nl = [int(x) for x in st.mlmc_results.Nl]
+            rows = [(np.array(st.simulation_payoff_with_fine_process(l), dtype=float).ravel(),
+                     np.array(st.simulation_payoff_with_coarse_process(l), dtype=float).ravel()) for l in range(len(st.mc_statistics))]
+            price = float(st.price())
+        res.count(("mp-real-fixed-date", nproc), nontrivial=True,
+                  kind=f"real fixed-date coupling process, fixed-level variant, {nproc} process(es)")
+        payload = {"kind": "real-fixed-date-pool", "nb_of_processes": nproc, "paths": N, "Nl": Nl, "rows_stored": [len(f) for f, _ in rows]}
+        if Nl != [N, N] or any(len(f) != N or len(c) != N for f, c in rows):
+            res.violation("real fixed-date process: N_l / stored rows differ from the configured number of paths", payload)
+            continue
+        if np.any(rows[0][1] != 0.0):
+            res.violation("real fixed-date process: the coarse payoff is not identically zero at level 0", payload)
+        total = sum(float(np.mean(f)) - float(np.mean(c)) for f, c in rows)
+        if abs(price - total) > 1e-12 * max(1.0, abs(total)):
+            res.violation("real fixed-date process: price() is not the sum over levels of the mean of (fine - coarse) over the stored rows",
+                          dict(payload, reported=price, from_rows=total))
+        out[nproc] = [len(set(zip(f.tolist(), c.tolist()))) for f, c in rows]
+    if 1 in out and out[1] != [N, N]:
+        res.broke("real fixed-date control", f"single-process control run: {out[1]} distinct rows of {N} per level (continuous model: expected all distinct)")
+    if 2 in out:
+        shared = any(d < N for d in out[2])
+        res.bump("real fixed-date process, 2-worker pool, 64 rows stored per level",
+                 "fewer than 64 DISTINCT rows on some level: 'sigma permutes' is false here -- explained by F-C08-3 (known finding of C08), not a C05 violation"
+                 if shared else "all rows distinct (F-C08-3 not observed on this tree)")
+        res.bump("real fixed-date process, 2-worker pool: distinct rows (level 0, level 1) of 64", str(out[2]))
 
 
 def _fixed_variant(res, rng):
